@@ -9,6 +9,7 @@ import (
 	"math"
 
 	"gonum.org/v1/gonum/graph"
+	"gonum.org/v1/gonum/graph/multi"
 	"gonum.org/v1/gonum/graph/network"
 	"gonum.org/v1/gonum/graph/spectral"
 	"gonum.org/v1/gonum/internal/verif/vlib"
@@ -173,10 +174,13 @@ func checkLaplacian(t *vlib.T, b *built) {
 func genLaplacian(g *vlib.G) {
 	for _, s := range []graphSpace{
 		{n: 0}, {n: 1}, {n: 2}, {n: 3}, {n: 4}, {n: 5},
-		{n: 3, weighted: true, stride: 2},
+		{n: 3, weighted: true}, {n: 4, weighted: true}, {n: 5, weighted: true, stride: vlib.Pick(g, 7, 1), rotate: true},
 		{n: 1, directed: true}, {n: 2, directed: true}, {n: 3, directed: true},
-		{n: 4, directed: true},
+		{n: 4, directed: true}, {n: 3, directed: true, weighted: true},
+		{n: 4, directed: true, weighted: true, stride: vlib.Pick(g, 29, 3), offset: 2},
 	} {
+		s := s
+		s.noMulti = true // documented for simple graphs
 		forGraphs(s, s.stride <= 1 && !s.rotate, func(key string, mk func() *built) {
 			g.Case(key, func(t *vlib.T) { checkLaplacian(t, mk()) })
 		})
@@ -372,16 +376,79 @@ func zeros(v []float64) int {
 
 func genDiffuse(g *vlib.G) {
 	for _, s := range []graphSpace{
-		{n: 1}, {n: 2}, {n: 3}, {n: 4},
-		{n: 5, rotate: true},
-		{n: 2, directed: true}, {n: 3, directed: true},
-		{n: 4, directed: true, stride: vlib.Pick(g, 4, 1), offset: vlib.Pick(g, 1, 0), rotate: true},
+		{n: 1, noMulti: true}, {n: 2, noMulti: true}, {n: 3, noMulti: true}, {n: 4, noMulti: true},
+		{n: 5, rotate: true, noMulti: true},
+		{n: 2, directed: true, noMulti: true}, {n: 3, directed: true, noMulti: true},
+		{n: 4, directed: true, stride: vlib.Pick(g, 4, 1), offset: vlib.Pick(g, 1, 0), rotate: true, noMulti: true},
 	} {
 		forGraphs(s, s.stride <= 1 && !s.rotate, func(key string, mk func() *built) {
 			g.Case(key, func(t *vlib.T) { checkDiffuse(t, mk()) })
 		})
 		if g.Stopped() {
 			return
+		}
+	}
+}
+
+// ---- documented panic on self edges ----
+
+// genLaplacianSelfEdge: "If g contains self edges, New*Laplacian will panic".
+// The simple containers cannot hold a self edge; a multigraph can (a line
+// from a node to itself, which From then reports).
+func genLaplacianSelfEdge(g *vlib.G) {
+	for _, directed := range []bool{false, true} {
+		for idx := 0; idx < nGraphs(3, directed, false); idx++ {
+			for loop := 0; loop < 3; loop++ {
+				directed, idx, loop := directed, idx, loop
+				g.Case(fmt.Sprintf("%s#%d loop at %d", graphSpace{n: 3, directed: directed}.name(), idx, loop), func(t *vlib.T) {
+					sp := mkSpec(3, directed, false, idx)
+					ids := idMap(idx%3, 3)
+					expectPanic := func(what string, f func()) {
+						defer func() {
+							r := recover()
+							if r == nil {
+								t.Failf("%s on %s with a self edge at node %d did not panic (documented: will panic)", what, sp, ids[loop])
+							} else if fmt.Sprint(r) != "network: self edge in graph" {
+								t.Failf("%s on %s with a self edge at node %d panicked with %v", what, sp, ids[loop], r)
+							}
+						}()
+						f()
+					}
+					if directed {
+						mg := multi.NewDirectedGraph()
+						for _, id := range ids {
+							mg.AddNode(multi.Node(id))
+						}
+						for i := 0; i < 3; i++ {
+							for j := 0; j < 3; j++ {
+								if sp.has(i, j) {
+									mg.SetLine(mg.NewLine(multi.Node(ids[i]), multi.Node(ids[j])))
+								}
+							}
+						}
+						mg.SetLine(mg.NewLine(multi.Node(ids[loop]), multi.Node(ids[loop])))
+						expectPanic("NewRandomWalkLaplacian", func() { spectral.NewRandomWalkLaplacian(mg, 0.5) })
+					} else {
+						mg := multi.NewUndirectedGraph()
+						for _, id := range ids {
+							mg.AddNode(multi.Node(id))
+						}
+						for i := 0; i < 3; i++ {
+							for j := i + 1; j < 3; j++ {
+								if sp.has(i, j) {
+									mg.SetLine(mg.NewLine(multi.Node(ids[i]), multi.Node(ids[j])))
+								}
+							}
+						}
+						mg.SetLine(mg.NewLine(multi.Node(ids[loop]), multi.Node(ids[loop])))
+						expectPanic("NewLaplacian", func() { spectral.NewLaplacian(mg) })
+						expectPanic("NewSymNormLaplacian", func() { spectral.NewSymNormLaplacian(mg) })
+						expectPanic("NewRandomWalkLaplacian", func() { spectral.NewRandomWalkLaplacian(mg, 0.5) })
+					}
+					t.Nontrivial()
+					t.Outcome(fmt.Sprintf("directed=%v panics", directed))
+				})
+			}
 		}
 	}
 }
